@@ -120,7 +120,8 @@ Definition mig_model (c : World.world * (str + (str * cfgdata)) * store * list b
                         if has[n]:
                             vals[n] = describe_value(t.value)
                     after = dict(has=has, values=vals, ran=[f'{s}#{k}' for _, s, k in pl.RUNLOG],
-                                 old_has={n: bool(t.has_data) for n, t in old.tasks.items()})
+                                 old_has={n: bool(t.has_data) for n, t in old.tasks.items()},
+                                 old_fullname={n: t.fullname for n, t in old.tasks.items()})
                 except CONSTRUCTION_ERRORS as e:
                     after = dict(error=type(e).__name__)
             return dict(src0=src0, steps=steps, old_values=old_values, after=after)
@@ -165,7 +166,13 @@ Definition mig_model (c : World.world * (str + (str * cfgdata)) * store * list b
         a = obs.get('after') or {}
         if real_done and 'has' in a:
             for n, h in a['has'].items():
-                if n in a['old_has'] and h != a['old_has'][n]:
+                if n not in a['old_has']:
+                    continue
+                # in name mode one task object (one stored result) can be known under several namespaces; it is
+                # carried over for the name it was created under - under its other names the parameter-mode task
+                # is another computation unless the keys coincide
+                alias = a.get('old_fullname', {}).get(n, n) != n
+                if h != a['old_has'][n] and not (alias and a['old_has'][n]):
                     return f'after migration {n} has_data={h} in the target, {a["old_has"][n]} in the source'
             if a['ran']:
                 return f'the parameter-mode chain ran {a["ran"]} for migrated results'
